@@ -78,11 +78,13 @@ APathSeq == << <<"a">>, <<"a", "b">>, <<>>, <<"c">> >>
 APaths(n) == {APathSeq[i] : i \in 1..AShape[n]}
 \* what a family-A route can be: inbound (no match block, GET only, POST+PUT), outbound, internal
 AKinds == {<<"inbound", "none">>, <<"inbound", "mGet">>, <<"inbound", "mPP">>, <<"outbound", "none">>, <<"internal", "none">>}
+\* four-route configurations leave the POST+PUT block out (it is exercised in every position by the shorter ones)
+AKindsFor(n) == IF n >= 4 THEN AKinds \ {<<"inbound", "mPP">>} ELSE AKinds
 Injective(f) == \A i, j \in DOMAIN f : i # j => f[i] # f[j]
 ConfigsA ==
   UNION {
     {[i \in 1..n |-> Rt(ks[i][1], ps[i], ks[i][2], i)] :
-        ps \in {f \in [1..n -> APaths(n)] : Injective(f)}, ks \in [1..n -> AKinds]}
+        ps \in {f \in [1..n -> APaths(n)] : Injective(f)}, ks \in [1..n -> AKindsFor(n)]}
     : n \in {n \in DOMAIN AShape : AShape[n] >= n}}
 
 (* ------------------------------------------------------------- family B *)
